@@ -13,7 +13,7 @@ from __future__ import annotations
 import unicodedata
 from typing import Any, Dict, List, Optional, Tuple
 
-from vf.gen.pdfw import Doc, HexStr, Name, Raw, Real, Ref, Stream
+from vf.gen.pdfw import Doc, Name, Raw, Real, Ref, Stream
 
 # --------------------------------------------------------------------------
 # Annex D.2: PDFDocEncoding.  Only the part that differs from ISO Latin-1 is
